@@ -42,7 +42,8 @@ ASSUMPTIONS = ["an interruption of the underlying socket is socket.timeout or an
 TRUSTED = ["Model/C12_Model.v is hand-written; tied to boltons.socketutils by the correspondence run",
            "harness/c12.py scripted socket, scripted clock (boltons.socketutils.time replaced by assignment) and serialiser",
            "bytes/bytearray slicing, find and join of CPython (py_find/firstn/skipn in the model)",
-           "int() on ASCII digits (py_int), str() of a non-negative int (py_str)"]
+           "int() of a bytes object in base 10 (py_int models white space, sign, underscores), "
+           "str() of a non-negative int (py_str = decimal notation)"]
 
 EXN = {"Timeout": "Timeout", "ConnectionClosed": "ConnectionClosed", "MessageTooLong": "MessageTooLong",
        "NetstringInvalidSize": "NetstringInvalidSize", "NetstringMessageTooLong": "NetstringMessageTooLong",
@@ -697,9 +698,15 @@ def gen_ns(rng, tier):
             wops.append(["write", rand_payload(rng, full=True)])
     r = rng.random()
     junk = []
-    if r < 0.12:       # truncated / malformed tail: error behaviour is only tied to the model
+    if r < 0.2:        # truncated / malformed tail: error behaviour is only tied to the model
         junk = rng.choice([[51], [51, 58, 97], [97, 58], [58], [50, 58, 97, 98, 59], [48, 58], [48, 58, 44],
-                           [57, 57, 57, 57, 57, 57, 57], [49, 50, 51, 52, 53, 54, 58], [51, 58, 97, 98, 99]])
+                           [57, 57, 57, 57, 57, 57, 57], [49, 50, 51, 52, 53, 54, 58], [51, 58, 97, 98, 99],
+                           # int() syntax: white space, sign, underscores; negative and malformed sizes
+                           [32, 51, 58, 97, 98, 99, 44], [43, 50, 58, 97, 98, 44, 49, 58, 120, 44], [45, 49, 58, 97, 44],
+                           [45, 49, 58, 44, 50, 58, 97, 98, 44], [49, 95, 48, 58] + [120] * 10 + [44], [95, 49, 58, 97, 44],
+                           [49, 95, 95, 48, 58], [49, 95, 58, 97, 44], [9, 50, 10, 58, 97, 98, 44], [43, 58], [45, 58, 44],
+                           [43, 32, 53, 58], [48, 120, 49, 58], [255, 58], [49, 0, 50, 58], [11, 49, 12, 58, 122, 44],
+                           [45, 48, 58, 44], [48, 95, 48, 58, 44, 49, 58, 97, 44]])
     total_guess = sum(len(o[1]) + 4 for o in wops if o[0] == "write") + len(junk)
     cuts = add_timeouts(rng, rand_cuts(rng, total_guess), rng.choice([0.0, 0.0, 0.15, 0.35]))
     rops = []
